@@ -500,6 +500,9 @@ def _worker(task):
                                                  '\n'.join(tb[-14:])))
     for ob in ex.obligations:
         ob.info.setdefault('script', name)
+    keep = getattr(chk, 'keep_prefixes', None)
+    if keep:
+        ex.obligations = [o for o in ex.obligations if o.name.startswith(keep)]
     out = _discharge_bucket(chk, ex.obligations, name,
                             is_canary_script=(kind == 'canary'))
     out['undecided'] = und + out['undecided']
